@@ -112,7 +112,6 @@ int kalign_read_input(char* infile, struct msa** msa, int quiet)
         if(j == 0){
                 DESTROY_TIMER(timer);
                 free_in_buffer(b);
-                *msa = NULL;
                 return OK;
         }
 
@@ -137,7 +136,6 @@ int kalign_read_input(char* infile, struct msa** msa, int quiet)
                 /* clean up allocated structures */
                 free_in_buffer(b);
                 DESTROY_TIMER(timer);
-                *msa = NULL;
                 return OK;
         }
         m->quiet = quiet;
